@@ -16,7 +16,7 @@ def tla_seq(b):
     return "<<" + ", ".join(str(x) for x in b) + ">>"
 
 
-def model(chk, samples, timeout):
+def model(chk, samples, timeout, bodies=()):
     d = vlib.scratch("c17")
     for fn in ("PubString.tla",):
         os.symlink(os.path.join(vlib.SPEC, fn), os.path.join(d, fn))
@@ -24,6 +24,8 @@ def model(chk, samples, timeout):
     src = src.replace("CONSTANT Samples          \\* set of <<time8 bytes, imprint bytes>>",
                       "Samples == {" + ", ".join("<<%s, %s>>" % (tla_seq(t), tla_seq(i)) for t, i in samples) + "}")
     assert "Samples ==" in src
+    a = src.index("CONSTANT Bodies"); b = src.index("\n", src.index("every known algorithm must round-trip"))
+    src = src[:a] + "Bodies == {" + ", ".join("<<%s, %s>>" % (tla_seq(t), tla_seq(i)) for t, i in bodies) + "}" + src[b:]
     with open(os.path.join(d, "MC_PubString.tla"), "w") as f:
         f.write(src)
     with open(os.path.join(d, "c.cfg"), "w") as f:
@@ -48,13 +50,28 @@ def run(chk, tier, seed):
     for a in algs:
         t = rng.choice(times) if samples else 1500000000
         samples.append((list(t.to_bytes(8, "big")), list(ksi.fake_imprint(a, rng.randbytes(8)))))
-    rows = model(chk, samples, 1500 if tier == "quick" else 3400)
+    # bodies whose string carries a correct checksum: for every algorithm id 0..12 and a few beyond, a digest of the algorithm's length (for unknown
+    # ids: 20 / 32 octets), one octet less and one more.  FromString decides; a known algorithm does not have to be computable by the crypto back end
+    KNOWN = {0: 20, 1: 32, 2: 20, 4: 48, 5: 64, 7: 28, 8: 32, 9: 48, 10: 64, 11: 32}
+    bodies = []
+    for a in list(range(0, 14)) + [0x7e, 0xff]:
+        for n in ([KNOWN[a] - 1, KNOWN[a], KNOWN[a] + 1] if a in KNOWN else [20, 32]):
+            bodies.append((list(rng.choice(times).to_bytes(8, "big")), [a] + list(rng.randbytes(n))))
+    rows = model(chk, samples, 1500 if tier == "quick" else 3400, bodies)
     lines, checks = [], []
     nvar = 0
     for row in rows:
         smp, v = row["smp"], row["v"]
         s = "".join(v["str"])
         t = int.from_bytes(bytes(smp[0]), "big"); imp = bytes(smp[1])
+        if v["pos"] == -3:
+            lines.append("B32E %s %d" % (bytes(smp[0]).hex(), smp[1][0])); checks.append(("b32e", s, None))
+            continue
+        if v["pos"] == -2:
+            lines.append("S2D %s" % hexstr(s)); checks.append(("body", (t, imp, v["res"]["ok"], v["res"].get("why")), None))
+            if v["res"]["ok"]:
+                lines.append("D2S %d %s" % (t, imp.hex())); checks.append(("enc", s, None))
+            continue
         if v["pos"] == 0:
             lines.append("D2S %d %s" % (t, imp.hex())); checks.append(("enc", s, None))
             lines.append("S2D %s" % hexstr(s)); checks.append(("dec", (t, imp), None))
@@ -113,6 +130,15 @@ def run(chk, tier, seed):
                 chk.violation("padbits-rejected", "a variant that only changes unused pad bits is rejected (%s)" % what, dict(line=line))
             elif acc and not (int(f.get("time", -1)) == t and f.get("imprint") == imp.hex()):
                 chk.violation("corruption-decodes-differently", "accepted variant decodes to other data (%s)" % what, dict(line=line))
+        elif kind == "body":
+            t, imp, ok, why = a
+            acc = f.get("rc") == "0"
+            if acc != ok:
+                chk.violation("algorithm:%s:%s" % ("accepted" if acc else "rejected", "known" if imp[0] in (0, 1, 2, 4, 5, 7, 8, 9, 10, 11) else "unknown"),
+                              "publication string with algorithm id %d and %d digest octets: PubString.tla %s, libksi %s (%s)" % (imp[0], len(imp) - 1, "accepts" if ok else "rejects (%s)" % why, "accepts" if acc else "rejects", o[:120]),
+                              dict(line=line))
+            elif acc and not (int(f.get("time", -1)) == t and f.get("imprint") == imp.hex()):
+                chk.violation("decode", "valid publication string does not decode to its data: %s" % o, dict(line=line))
         elif kind == "ladder":
             acc = f.get("rc") == "0"
             if acc != (a == 41):
